@@ -40,6 +40,9 @@ func (t *pubTarget) configure(path string) {
 		pd := make([]float64, nb*ns)
 		bd := make([]float64, nb*ns)
 		for i := range pd {
+			if nb > 100 {
+				break // many coefficients: all-zero matrices keep the rendered header short
+			}
 			pd[i] = float64(i % 4)
 			bd[i] = float64(i%5) - 1
 		}
@@ -83,11 +86,10 @@ func (t *pubTarget) record(i int) (dastard.VerifRecord, []byte) {
 		}
 		data := make([]uint16, 40)
 		exp := le(int32(len(data)))
-		for _, p := range [][]byte{le(int32(pubNpre)), le(frame), le(ns), le(float32(2)), le(float32(0)), le(float32(1)), le(c32)} {
+		for _, p := range [][]byte{le(int32(pubNpre)), le(frame), le(ns), le(float32(0)), le(float32(0)), le(float32(0)), le(c32)} {
 			exp = append(exp, p...)
 		}
-		return dastard.VerifRecord{Chan: 0, Frame: frame, TimeNs: ns, Pre: pubNpre, Data: data, PretrigMean: 2,
-			ResidualStdDev: 1, ModelCoefs: coefs}, exp
+		return dastard.VerifRecord{Chan: 0, Frame: frame, TimeNs: ns, Pre: pubNpre, Data: data, ModelCoefs: coefs}, exp
 	}
 }
 
